@@ -230,3 +230,36 @@ Definition prec_ok (P : ptable) : bool :=
       && (right_bin P o o' || (rprio o <? lprio o'))) binops
     && forallb (fun u => left_un P o u || (lprio o <=? UNARY_PRIORITY)) unops) binops
   && forallb (fun u => forallb (fun o' => un_bin P u o' || (UNARY_PRIORITY <? lprio o')) binops) unops.
+
+(** * statement boundary (stage 3): the rule deciding whether a ";" is needed
+
+    [ends_prefix] is [utils::expression_ends_with_prefix] on the operator fragment ([isp a]:
+    atom [a] is a prefix expression: a name, a call, a field or an index; numbers, strings,
+    tables, functions are not).  [closes_prefix] is what actually matters for the following
+    "(": the LAST TOKEN WRITTEN closes a prefix expression. *)
+Section Semicolon.
+Variable isp : N -> bool.
+
+Fixpoint ends_prefix (e : expr) : bool :=
+  match e with
+  | EAtom a => isp a
+  | EBin _ _ r => ends_prefix r
+  | EUn _ x => ends_prefix x
+  | EParen _ => true
+  end.
+
+Definition closes_prefix (toks : list ptok) : bool :=
+  match last toks KLp with
+  | KRp => true
+  | KAtom a => isp a
+  | _ => false
+  end.
+
+(** the generator adds no parentheses along the right spine of [e] *)
+Fixpoint right_spine_plain (P : ptable) (e : expr) : bool :=
+  match e with
+  | EBin o _ r => negb (right_needs P o r) && right_spine_plain P r
+  | EUn u x => negb (operand_needs P u x) && right_spine_plain P x
+  | _ => true
+  end.
+End Semicolon.
